@@ -399,7 +399,7 @@ def build_groups(rng, tier):
     ex = exhaustive_group(tier)
     groups.append({"descrs": ex, "kind": "exhaustive"})
     # build-order permutations of the exhaustive universe, compared with the canonical builds
-    n_perm = 40 if tier == "quick" else 400
+    n_perm = 40 if tier == "quick" else 250
     for _ in range(n_perm):
         base = rng.choice(ex)["want"]
         ds = [dict(ctor_from_abstract(base), want=base, kind="exhaustive")]
@@ -408,11 +408,11 @@ def build_groups(rng, tier):
         other = rng.choice(ex)["want"]
         ds.append(permuted_variant(rng, other, rng.randint(0, 5)))
         groups.append({"descrs": ds, "kind": "build-order"})
-    for _ in range(60 if tier == "quick" else 700):
+    for _ in range(60 if tier == "quick" else 450):
         groups.append({"descrs": random_group(rng, big=rng.random() < 0.3), "kind": "random"})
-    for _ in range(40 if tier == "quick" else 400):
+    for _ in range(40 if tier == "quick" else 250):
         groups.append({"descrs": route_group(rng, allow_repeats=False), "kind": "routes"})
-    for _ in range(6 if tier == "quick" else 40):
+    for _ in range(6 if tier == "quick" else 30):
         groups.append({"descrs": route_group(rng, allow_repeats=True), "kind": "routes-with-repeated-arguments"})
     return groups
 
